@@ -39,6 +39,23 @@ def daily_demand_csv():
     return path
 
 
+def leap_demand_csv():
+    """the shipped hourly demand file continued by a 366th day (a leap year's 8784 hours; the extra day's demand is conspicuous)"""
+    path = os.path.join(runner.SCRATCH_ROOT, f'vf-static-{os.getuid()}', 'leap_year_heat_demand.csv')
+    if not os.path.exists(path):
+        os.makedirs(os.path.dirname(path), exist_ok=True)
+        with open(demand_csv(), encoding='utf-8-sig') as f:
+            lines = [l for l in f.read().splitlines() if l.strip()]
+        head, rows = lines[0], lines[1:8761]
+        tmp = path + f'.{os.getpid()}'
+        with open(tmp, 'w') as f:
+            f.write(head + '\n' + '\n'.join(rows) + '\n')
+            for h in range(24):
+                f.write(f'{8761 + h},{97.0 + h}\n')
+        os.replace(tmp, path)
+    return path
+
+
 def base(econ=1, enduse=1, plant=1, res=4, shape=(5, 3, 2), redrill=False) -> OrderedDict:
     L, n, cy = shape
     d = OrderedDict()
